@@ -309,15 +309,19 @@ def _check_directory_structure_validity(paths):
         If a path is repeated as both a leaf and a node in the directory structure.
 
     """
-    check = set()
+    paths = list(paths)
+    nodes = set()
     for dst in paths:
-        if dst in check:
+        tokens = dst.split(os.path.sep)
+        for i in range(1, len(tokens)):
+            nodes.add(os.path.sep.join(tokens[:i]))
+    # Compare against the nodes of all paths, so that the result does not
+    # depend on the order in which the paths are given.
+    for dst in paths:
+        if dst in nodes:
             raise RuntimeError(
                 f"The path '{dst}' is both a leaf and node in the path structure."
             )
-        tokens = dst.split(os.path.sep)
-        for i in range(1, len(tokens)):
-            check.add(os.path.sep.join(tokens[:i]))
 
 
 def _export_jobs(jobs, path, copytree):
